@@ -145,6 +145,11 @@ func (g *Gen) wellFormedResult(v *Val) string {
 func (g *Gen) applyContract(ct *Contract, names []string, args []*Val, sig *types.Signature, resT types.Type, pos token.Pos) *Val {
 	if ct.Assumed != "" {
 		g.assumedUsed[ct.Key+" ("+ct.Assumed+")"] = true
+	} else if strings.HasPrefix(ct.Key, repoMod) {
+		if g.calledKeys == nil {
+			g.calledKeys = map[string]bool{}
+		}
+		g.calledKeys[ct.Key] = true
 	}
 	env := &Env{g: g, vars: map[string]*Val{}, heap: copyMap(g.heap), old: copyMap(g.heap), nextobj: g.nextobj, oldNextobj: g.nextobj,
 		ghost: copyMap(g.ghost), oldGhost: copyMap(g.ghost), pkg: g.eng.pkgOfKey(ct.Key)}
